@@ -285,3 +285,36 @@ def u_roundtrip_seeded(ip):
     ip.call(method(ip, gb, "add"), list(nodes.values()) + list(vars_.values()), {})
     kind, r = try_call(ip, method(ip, gb, "build_model"), [])
     c.oblige("pop_rebuild_with_seeded_node_succeeds", kind == "ok")
+
+
+@unit("C15.groups", "C15", [f"{M}::Model.groups", f"{M}::Model.__init__", f"{M}::GraphBuilder.add_groups", f"{M}::GraphBuilder.groups", f"{N}::Group.__init__"])
+def u_groups(ip):
+    """the groups a model reports contain the model's OWN nodes and variables - for a plain build and for copy=True (where the
+    model holds copies); a second group of the same name is rejected by the builder."""
+    c = ip.ctx
+    install_graph_models(ip)
+    Group = ip.repo(f"{N}::Group")
+    for copy_flag in (False, True):
+        g = G(ip)
+        a = g.var("a")
+        b = g.var("b", value=g.calc("f_b", a))
+        grp = ip.call(Group, ["grp"], {"a": a, "b": b})
+        gb = ip.call(g.GB, [], {})
+        ip.call(method(ip, gb, "add"), [b], {})
+        ip.call(method(ip, gb, "add_groups"), [grp], {})
+        m = ip.call(method(ip, gb, "build_model"), [], {"copy": copy_flag})
+        groups = ip.call(method(ip, m, "groups"), [], {})
+        tag = f".copy_{copy_flag}"
+        ok = isinstance(groups, dict) and list(groups) == ["grp"]
+        c.oblige("group_reported" + tag, ok)
+        if ok:
+            mem = groups["grp"].f["_nodes_and_vars"]
+            c.oblige("members_are_the_models_own" + tag, mem["a"] is m.f["_vars"]["a"] and mem["b"] is m.f["_vars"]["b"])
+            c.oblige("copy_is_independent" + tag, (m.f["_vars"]["a"] is not a) == copy_flag)
+    g = G(ip)
+    x, y = g.var("x"), g.var("y")
+    g1, g2 = ip.call(Group, ["same"], {"x": x}), ip.call(Group, ["same"], {"y": y})
+    gb = ip.call(g.GB, [], {})
+    ip.call(method(ip, gb, "add_groups"), [g1], {})
+    kind, r = try_call(ip, method(ip, gb, "add_groups"), [g2])
+    c.oblige("duplicate_group_name_rejected", kind == "raise" and r.cls == "RuntimeError")
